@@ -2276,8 +2276,26 @@ func (c *Conn) handleIncomingPacket(
 		return outcome, nil
 	}
 
+	// What is left is not a handshake message. At epoch 0 nothing authenticates
+	// it: once the peer has switched to protected records it cannot come from
+	// the peer, and before that a record that does not even parse is invalid.
+	// Both are discarded silently (RFC 6347 Section 4.1.2.7), or one forged
+	// datagram would end the association.
+	unprotected := prepared.header.Epoch == 0
+	if unprotected && dtlsstate.CommonState(c.state).RemoteEpoch() != 0 {
+		c.log.Debug("discarded unprotected record on a protected association")
+
+		return packetOutcome{}, nil
+	}
+
 	r := &recordlayer.RecordLayer{}
 	if err := r.Unmarshal(prepared.buf); err != nil {
+		if unprotected {
+			c.log.Debugf("discarded unprotected record: %s", err)
+
+			return packetOutcome{}, nil
+		}
+
 		return packetOutcome{
 			responseAlert: &alert.Alert{Level: alert.Fatal, Description: alert.DecodeError},
 		}, err
